@@ -88,7 +88,7 @@ PROPS['C13'] = {
             'resize(n, v) with an own element (with and without reallocation), push(move(own element)), stack push(top()), resize(n, T(x)) with an rvalue, '
             'self-swap, near-copies compared with ==; nested owners node{id, vector<node>} with kids = kids[k].kids (copy, move), push of an own element, '
             'assignment of a container to a vector owned by one of its elements (model: deep copy taken before the call).',
-    'required_tags': ['kind-%d' % k for k in range(25)] + ['owned-push_front-nonempty', 'owned-insert-middle', 'append-own-owner', 'alias-arg-realloc', 'alias-arg-in-place', 'resize-rvalue-multi', 'sv-self-swap-inline', 'assign-from-owned-copy', 'assign-from-owned-move', 'stack-push-top', 'equal-but-not-bytewise', 'grew-then-shrank', 'pair-op-nonempty', 'splice-nonempty', 'sv-swap-inline-heap', 'sv-move-inline'],
+    'required_tags': ['kind-%d' % k for k in range(28)] + ['owned-push_front-nonempty', 'owned-insert-middle', 'append-own-owner', 'alias-arg-realloc', 'alias-arg-in-place', 'resize-rvalue-multi', 'sv-self-swap-inline', 'assign-from-owned-copy', 'assign-from-owned-move', 'stack-push-top', 'equal-but-not-bytewise', 'grew-then-shrank', 'pair-op-nonempty', 'splice-nonempty', 'sv-swap-inline-heap', 'sv-move-inline'],
     'min_cases': {'quick': 20000, 'thorough': 400000},
     'level_text': 'generated operation histories against std::vector/std::deque reference sequences, compared after every operation; held on everything generated',
     'level_note': 'trusts the std containers as reference, ASan+UBSan and the exact-size tracking allocator for the own-storage clause; the state of a moved-from container is not asserted, it is only required to stay readable',
@@ -475,6 +475,9 @@ NOT_APPLICABLE = {}
 # ---- second-compiler runs (thorough tier only)
 PROPS['C06']['runs'].append(gcc_run('rbtree_seq', 40000, [60, 100, 200]))
 PROPS['C07']['runs'].append(gcc_run('interval_seq', 30000, [60, 100, 200]))
+# the order in which by-value parameters are initialised differs between the two compilers (clang: left to right, g++: right to left):
+# the interval harness is cheap to build, so its g++ build also runs in the quick tier
+PROPS['C07']['runs'][-1]['quick'] = {'rc': rc(3000, sizes=[60, 100], workers=4)}
 PROPS['C08']['runs'].append(gcc_run('pheap_seq', 30000, [60, 100, 200]))
 PROPS['C09']['runs'].append(gcc_run('radix_seq', 40000, [60, 100, 200]))
 PROPS['C11']['runs'].append(gcc_run('qs_seq', 30000, [60, 100, 200]))
@@ -497,10 +500,23 @@ PROPS['C15']['required_tags'] += ['wide-battery', 'to_number-all-types']
 PROPS['C17']['required_tags'] += ['extra-4', 'extra-5', 'extra-6', 'extra-7', 'tuple-6', 'emplace-over-engaged', 'emplace-same-alternative']
 PROPS['C16']['required_tags'] += ['unique_ptr-reentrant', 'unique_ptr-polymorphic']
 PROPS['C18']['required_tags'] += ['shift-huge']
-PROPS['C07']['required_tags'] += ['universe-all-negative', 'universe-straddles-zero']
+PROPS['C07']['required_tags'] += ['universe-all-negative', 'universe-straddles-zero', 'moving-endpoint-type']
 PROPS['C12']['required_tags'] += ['misuse-refused', 'sched-mode-1', 'sched-mode-2']
 PROPS['C20']['required_tags'] += ['long-literal-run', 'cmdline-null-callback-table']
 PROPS['C19']['required_tags'] += ['fmt-stored-object']
 PROPS['C10']['required_tags'] += ['sched-mode-1', 'sched-mode-2']
 PROPS['C11']['required_tags'] += ['sched-mode-1', 'sched-mode-2']
 PROPS['C05']['required_tags'] += ['sched-mode-1', 'sched-mode-2']
+
+# ---- classes added after the sixth seeding round
+PROPS['C01']['required_tags'] += ['huge-requests', 'via-slab_allocator']
+PROPS['C03']['required_tags'] += ['huge-requests']
+PROPS['C05']['required_tags'] += ['poison-hooks-under-concurrency']
+PROPS['C08']['required_tags'] += ['long-history-small-stack']
+PROPS['C11']['required_tags'] += ['barrier-registered-while-offline', 'prologue-barrier-pending', 'prologue-agent-offline']
+PROPS['C13']['required_tags'] += ['memptr-resize-grow']
+PROPS['C14']['required_tags'] += ['find-as-position', 'optional-valued-map', 'removed-disengaged-value']
+PROPS['C15']['required_tags'] += ['huge-view']
+PROPS['C18']['required_tags'] += ['bitset-self-op', 'pcg-crafted-threshold']
+PROPS['C19']['required_tags'] += ['fmt-13-arguments']
+PROPS['C20']['required_tags'] += ['printf-null-pointer-args', 'to_number-wide-views']
